@@ -561,6 +561,44 @@ def part_a(ck, hist, tag, pack=None, model=True):
                 if it['after_fnv']:
                     tail += ' fnv=' + it['after_fnv']
                 model_checks[len(model_lines) - 1] = ('open', exp, tail)
+    # fault sequence: the fsync of a tpc_finish raises; _finish closes the storage, and close() saves the index.
+    # What a failed fsync means: the bytes written since the last successful fsync may be lost while the (later)
+    # index file survives.  The saved index must describe a prefix of BOTH files.
+    if rr.packed is None and pack is None:
+        nt = max(tids or [L.TID_BASE]) + 0x1000000
+        hist_ff = list(hist) + [dict(kind='commit', tid=nt, status=' ', user=['f', 0, 0], desc=['f', 3, 7],
+                                     ext=['f', 0, 0], ops=[['store', 0x4243, ['f', 33, 5]]], save_index=False)]
+        root2 = os.path.join(ck.tmp, 'aff-' + tag)
+        if os.path.exists(root2):
+            shutil.rmtree(root2)
+        try:
+            rr2 = L.run_history(hist_ff, root2, fsync_fault_at=len(hist_ff) - 1)
+        except Exception:
+            rr2 = None
+        if rr2 is not None and (rr2.fsync_fault or '').startswith('raised'):
+            files2 = L.read_dir(root2)
+            idx2, full = files2.get('Data.fs.index'), files2.get('Data.fs', b'')
+            voteoff = [e[2] for e in rr2.events if e[0] == 'write' and e[1] == 'Data.fs' and len(e[3]) > 1]
+            o2, t2 = sorted(set(oids) | {0x4243}), sorted(set(tids) | {nt})
+            if idx2 is not None and voteoff:
+                for tname, data2 in (('fsync-failed-tail-present', full), ('fsync-failed-tail-lost', full[:voteoff[-1]])):
+                    want = open_dump(wd, {'Data.fs': data2}, o2, t2, writes=True)
+                    got = open_dump(wd, {'Data.fs': data2, 'Data.fs.index': idx2}, o2, t2, writes=True)
+                    ck.case([hid, tname, 'index-saved-by-close'], True, None)
+                    ck.count('variant:' + tname)
+                    if 'error' in want:
+                        continue
+                    if 'error' in got:
+                        viol.append(('C09:index-after-failed-fsync-changes-state', '%s: open with the index that close() '
+                                     'saved after the failed fsync raised %s' % (tname, got['error']),
+                                     dict(history=hist, pack=pack, target=tname, variant='index-saved-by-close')))
+                    else:
+                        diff = first_diff(got['dump'], want['dump'])
+                        if diff:
+                            viol.append(('C09:index-after-failed-fsync-changes-state', '%s: the index that close() saved '
+                                         'after a tpc_finish whose fsync raised does not describe a prefix of the data '
+                                         'file: reopen with it differs from the full scan: %s' % (tname, diff),
+                                         dict(history=hist, pack=pack, target=tname, variant='index-saved-by-close')))
     # [I] fidelity of the _check_sanity model on index contents the property excludes (damaged /
     # mismatched indexes): model and implementation must take the same decision on the final file
     if model and rr.packed is None and snaps:
@@ -739,7 +777,7 @@ def gen_ro_spec(rng, idx):
     return dict(history=L.gen_history(rng, 'small', ntx=rng.choice([1, 2, 3, 4])),
                 mode=rng.choice(['closed', 'closed', 'tail', 'tail', 'writer', 'writer', 'writer-voted']),
                 calls=[rng.choice(READ_APIS + WRITE_APIS + WRITE_APIS + OTHER_APIS + EXTRA_REAL) for _ in range(n)] + ['close'],
-                seed=rng.randrange(1 << 30), index=idx)
+                seed=rng.randrange(1 << 30), index=idx, opener=['direct', 'config'][idx % 2])
 
 
 def ro_session(ck, spec):
@@ -780,7 +818,16 @@ def ro_session(ck, spec):
         rec.readonly_guard = True
         before = vfs.snapshot(root)
         try:
-            ro = FileStorage(path, read_only=True)
+            if spec.get('opener') == 'config':
+                # the other way to open the same thing: a <filestorage> section with `read-only true`
+                import ZODB.config
+                ro = ZODB.config.storageFromString('<filestorage>\n  path %s\n  read-only true\n</filestorage>\n' % path)
+                ck.count('ro-opener:config')
+            else:
+                ro = FileStorage(path, read_only=True)
+            if not ro.isReadOnly():
+                viol.append(('C09:ro-open-not-read-only', 'a storage opened read-only (%s, opener %s) reports isReadOnly() '
+                             '== False' % (mode, spec.get('opener', 'direct')), dict(spec, calls=[])))
         except Exception as e:
             rec.readonly_guard = False
             sig = 'C09:ro-open-raised'
@@ -788,7 +835,8 @@ def ro_session(ck, spec):
                 sig = 'C09:sanity-walk-before-file-start'
             if isinstance(e, OSError) and e.errno == 30:        # EROFS raised by the VFS read-only guard
                 sig = 'C09:ro-mutated:open'
-            viol.append((sig, 'read-only open (%s) raised %s %s' % (mode, L.ename(e), str(e)[:120]),
+            viol.append((sig, 'read-only open (%s, opener %s) raised %s %s' % (mode, spec.get('opener', 'direct'),
+                                                                                  L.ename(e), str(e)[:120]),
                          dict(spec, calls=[])))
             if writer is not None:
                 if md is not None:
